@@ -4,7 +4,7 @@ import ast
 
 from .cfg import cfg_of, is_catch_all, handler_names, literals
 from .dataflow import Defs, Reaching, atoms, calls_in, provenance, stmt_of
-from .index import AnalysisError, call_name, dotted, head, norm, walk_body
+from .index import AnalysisError, call_name, dotted, enclosing, head, norm, walk_body
 
 COMPOUND = (ast.If, ast.While, ast.For, ast.AsyncFor, ast.With, ast.AsyncWith, ast.Try, ast.FunctionDef, ast.AsyncFunctionDef, ast.ClassDef)
 
@@ -219,3 +219,33 @@ def endtime_accumulators(func):
             ok = any(pmatch(pat, st.value) is not None for pat in (f"max({L}, ___)", f"max(___, {L})", f"np.maximum({L}, ___)", f"np.maximum(___, {L})"))
             out.append((L, st, ok))
     return out
+
+
+def passthrough_generators(func):
+    """Nested (or the function itself) generator loops of the form `x = next(g) ... yield x`:
+    [(FuncInfo-like node, take stmt, item name, loop)].  `func` is a FuncInfo; nested defs are
+    searched through its AST."""
+    out = []
+    for fn in [n for n in ast.walk(func.node) if isinstance(n, (ast.FunctionDef, ast.AsyncFunctionDef))]:
+        for st in walk_body(fn):
+            if isinstance(st, ast.Assign) and len(st.targets) == 1 and isinstance(st.targets[0], ast.Name) and isinstance(st.value, ast.Call) and isinstance(st.value.func, ast.Name) and st.value.func.id == "next" and st.value.args:
+                lp = enclosing(st, (ast.While, ast.For))
+                if lp is None or enclosing(lp, (ast.FunctionDef, ast.AsyncFunctionDef)) is not fn:
+                    continue
+                if not any(isinstance(x, ast.Yield) for x in walk_body(fn)):
+                    continue
+                out.append((fn, st, st.targets[0].id, lp))
+    return out
+
+
+def passthrough_conserves(fn, take, item, loop):
+    """Every in-loop path from the take to the next round passes `yield <item>`; returns (ok, why)."""
+    from .cfg import CFG
+    cfg = CFG(fn)
+    tn = cfg.node_of(take)
+    ln = cfg.node_of(loop)
+    inside = {id(x) for st_ in loop.body for x in ast.walk(st_)}
+    in_loop = lambda n: id(n.stmt if n.kind == "stmt" else n.owner) in inside
+    is_fwd = lambda n: n.kind == "stmt" and isinstance(n.stmt, ast.Expr) and isinstance(n.stmt.value, ast.Yield) and isinstance(n.stmt.value.value, ast.Name) and n.stmt.value.value.id == item
+    ok, path = cfg.every_path([tn], [ln], lambda n: is_fwd(n) or (n is not ln and not in_loop(n)), "n")
+    return ok, path
